@@ -189,11 +189,15 @@ val fold_left : ('a1 -> 'a2 -> 'a1) -> 'a2 list -> 'a1 -> 'a1
 
 val fold_right : ('a2 -> 'a1 -> 'a1) -> 'a1 -> 'a2 list -> 'a1
 
+val existsb : ('a1 -> bool) -> 'a1 list -> bool
+
 val firstn : nat -> 'a1 list -> 'a1 list
 
 val skipn : nat -> 'a1 list -> 'a1 list
 
 val seq : nat -> nat -> nat list
+
+val repeat : 'a1 -> nat -> 'a1 list
 
 type ascii =
 | Ascii of bool * bool * bool * bool * bool * bool * bool * bool
@@ -219,6 +223,10 @@ val val_eqb : val0 -> val0 -> bool
 val val_accepts : val0 -> val0 -> bool
 
 val vlistN : val0 list -> n list option
+
+val vNs : val0 -> n list option
+
+val omap : ('a1 -> 'a2 option) -> 'a1 list -> 'a2 list option
 
 val ofN : n -> val0
 
@@ -249,6 +257,8 @@ val dna_compare : dna -> dna -> comparison
 val dna_ltb : dna -> dna -> bool
 
 val dna_eqb : dna -> dna -> bool
+
+val dna_leb : dna -> dna -> bool
 
 val canon : dna -> dna
 
@@ -431,11 +441,59 @@ val lane : n -> nat -> n
 
 val decode : nat -> n -> dna
 
+type kinit =
+| IEmpty
+| IFromU64 of n
+| IFromBytes of n list
+| IFromAscii of n list
+
+type kop =
+| OExtL of n
+| OExtR of n
+| ORc
+| OSet of nat * n
+| OSetSlice of nat * nat * n
+| OMinRc
+
+val kinit_run : kcfg -> kinit -> n option
+
+val kstep : kcfg -> n -> kop -> n option
+
+val ksteps : kcfg -> n -> kop list -> n option
+
+val khist : kcfg -> kinit -> kop list -> n option
+
+val sinit : nat -> kinit -> dna
+
+val sstep : dna -> kop -> dna
+
+val shist : nat -> kinit -> kop list -> dna
+
+val le_bytes : nat -> n -> n list
+
+val hash_feed : kcfg -> n -> n list
+
+val k_eq : n -> n -> bool
+
+val k_cmp : n -> n -> comparison
+
+val insert_by : ('a1 -> 'a1 -> bool) -> 'a1 -> 'a1 list -> 'a1 list
+
+val sort_by : ('a1 -> 'a1 -> bool) -> 'a1 list -> 'a1 list
+
+val dedup_by : ('a1 -> 'a1 -> bool) -> 'a1 list -> 'a1 list
+
 val cfg_of : n -> n -> kcfg
 
 type handler = val0 list -> val0 option
 
 val lookup : string -> (string * handler) list -> handler option
+
+val v_kinit : val0 -> kinit option
+
+val v_kop : val0 -> kop option
+
+val cmp_code : comparison -> n
 
 val kmer_ops : kcfg -> (string * handler) list
 
